@@ -1,11 +1,15 @@
 import LabtechModel.Driver.RunCmd
 import LabtechModel.Model.Env
+import LabtechModel.Driver.DiagCmd
+import LabtechModel.Driver.LogCmd
 /-! Line-protocol driver: one command per input line, one observation line per command. -/
 
 def step (line : String) : String :=
   match line.trimAscii.toString.splitOn " " with
   | "RUN" :: rest => Lt.Cmd.handle rest
   | "ENV" :: rest => Lt.Env.handle rest
+  | "DIAG" :: rest => Lt.DiagCmd.handle rest
+  | "LOG" :: rest => Lt.LogCmd.handle rest
   | _ => "bad-op"
 
 partial def loop (h : IO.FS.Stream) (out : IO.FS.Stream) : IO Unit := do
